@@ -12,14 +12,14 @@ FEAT=$(python3 -c "import json;print(json.load(open('$OUT/meta$I.json')).get('ca
 export CARGO_NET_OFFLINE=true
 cd "$WT"
 mkdir -p "$CRATE/tests" && cp "$OUT/demo$I.rs" "$CRATE/tests/demo.rs"
-( cd "$CRATE" && cargo test --test demo $FEAT --offline >/tmp/wt/confirm.log 2>&1 ); R0=$?
+( cd "$CRATE" && eval "cargo test --test demo $FEAT --offline" >/tmp/wt/confirm.log 2>&1 ); R0=$?
 echo "demo WITHOUT change: exit $R0 (want 0)"
 rm -f "$CRATE/tests/demo.rs"
 git apply "$OUT/patch$I.diff" || { echo "PATCH DOES NOT APPLY"; exit 3; }
 cargo test --workspace --no-fail-fast --offline >/tmp/wt/confirm-suite.log 2>&1; RS=$?
 echo "suite WITH change: exit $RS (want 0); $(grep -c '^test result: ok' /tmp/wt/confirm-suite.log) ok groups, failed: $(grep -E '^test result: FAILED' /tmp/wt/confirm-suite.log | wc -l)"
 cp "$OUT/demo$I.rs" "$CRATE/tests/demo.rs"
-( cd "$CRATE" && cargo test --test demo $FEAT --offline >/tmp/wt/confirm2.log 2>&1 ); R1=$?
+( cd "$CRATE" && eval "cargo test --test demo $FEAT --offline" >/tmp/wt/confirm2.log 2>&1 ); R1=$?
 echo "demo WITH change: exit $R1 (want non-zero)"
 grep -E "panicked|assertion|left:|right:" /tmp/wt/confirm2.log | head -5
 rm -f "$CRATE/tests/demo.rs"
